@@ -102,6 +102,19 @@ def make_reuse_case(rng, wrap=False):
             w.heal(400)
     w.heal(400)
     closer = rng.choice("AB")
+    held = False
+    if rng.random() < 0.5 and w.ep[closer].channels:
+        # "last words": a message sent right before close() is held back by the network (or lost and retransmitted later) and
+        # arrives when the stream id has already been given to the next channel - it must never show up on that channel
+        w.salt += 1
+        w.apply(["send", closer, 0, rng.choice("sb"), rng.choice([10, 100]), w.salt])
+        while w.ep[closer].tasks:
+            w.apply(["task", closer])
+        peer = "B" if closer == "A" else "A"
+        if w.net[peer]:
+            w.apply(["stash", peer, len(w.net[peer]) - 1])
+            w.apply(["drop", peer, len(w.net[peer]) - 1])
+            held = True
     w.apply(["close", closer, 0])
     w.heal(600)
     w.apply(["create", rng.choice("AB"), dict(label="second", ordered=True)])
@@ -213,8 +226,131 @@ def make_strike_case(rng, wrap=False):
     return dict(case, ops=list(w.oplog))
 
 
+def make_early_case(rng, wrap=False):
+    """Directed schedules around channel set-up: (a) the acceptor of a channel sends at once and its messages overtake the
+    DATA_CHANNEL_ACK (reordering / loss of the ACK datagram); (b) every datagram of the association handshake is duplicated
+    and the copies arrive much later, when user data has already been delivered; (c) both. Reliable traffic must arrive
+    exactly once, in order (ordered channels), whatever the opener's state was when it arrived."""
+    case = make_case(rng, "clean", 0, wrap)
+    case["profile"] = "early"
+    w = W.World(dict(case, ops=[]))
+    w.oplog = []
+    variant = rng.choice("abc")
+    neg = variant in "bc" and rng.random() < 0.7
+    if neg:
+        # an out-of-band negotiated channel exists on both sides before the association is up
+        for n in "AB":
+            w.apply(["create", n, dict(label="neg", negotiated=True, id=12, ordered=rng.random() < 0.5)])
+    w.apply(["start", "A"])
+    w.apply(["start", "B"])
+    if variant in "bc":
+        # handshake: every datagram is also kept by the network and delivered again later
+        for _ in range(12):
+            moved = False
+            for n in "BA":
+                if w.net[n]:
+                    w.apply(["stash", n, 0])
+                    w.apply(["deliver", n, 0])
+                    moved = True
+                    if neg and w.ep[n].channels and rng.random() < 0.8:
+                        w.salt += 1
+                        w.apply(["send", n, 0, rng.choice("sb"), rng.choice([1, 10]), w.salt])   # as soon as it is open
+                    while w.ep[n].tasks and rng.random() < 0.7:
+                        w.apply(["task", n])
+            if not moved:
+                break
+    else:
+        w.heal(400)
+    opener = rng.choice("AB")
+    acceptor = "B" if opener == "A" else "A"
+    if variant in "ac":
+        w.apply(["create", opener, dict(label="u", ordered=rng.random() < 0.4)])
+        while w.ep[opener].tasks:
+            w.apply(["task", opener])
+        # the OPEN reaches the acceptor, which sends at once
+        while w.net[acceptor]:
+            w.apply(["deliver", acceptor, 0])
+        idx = len(w.ep[acceptor].channels) - 1
+        if idx >= 0:
+            for _ in range(rng.randrange(1, 5)):
+                w.salt += 1
+                w.apply(["send", acceptor, idx, rng.choice("sb"), rng.choice([1, 10, 100]), w.salt])
+            while w.ep[acceptor].tasks:
+                w.apply(["task", acceptor])
+        # towards the opener: the datagram with the ACK is lost or overtaken
+        q = w.net[opener]
+        if len(q) > 1:
+            x = rng.random()
+            if x < 0.4:
+                w.apply(["drop", opener, 0])
+            elif x < 0.8:
+                for _ in range(len(q) - 1):
+                    w.apply(["deliver", opener, 1])
+        for _ in range(6):
+            for n in "AB":
+                if w.net[n] and rng.random() < 0.8:
+                    w.apply(["deliver", n, 0])
+    # late copies of old datagrams
+    for n in "AB":
+        while w.stash[n]:
+            w.apply(["unstash", n, rng.randrange(len(w.stash[n]))])
+            if w.net[n] and rng.random() < 0.8:
+                w.apply(["deliver", n, len(w.net[n]) - 1])
+    if rng.random() < 0.5:
+        w.heal(600)
+    prof = dict(PROFILES["reliable"], channels=2, sizes=[1, 10, 100], loss=0.1, reorder=0.6, dup=0.1, react=0)
+    W.random_ops(rng, case, rng.choice([0, 20, 50]), prof, world=w)
+    return dict(case, ops=list(w.oplog))
+
+
+def make_ssnwrap_case(rng, wrap=False):
+    """Directed schedule (oracle-only: the stream sequence numbers start just below 2^16): an ordered channel sends a run
+    of small messages whose stream sequence numbers cross 65535 -> 0, the datagram carrying number 65535 (or another one of
+    the run) is lost while later ones arrive first, then the network heals: everything must still be delivered, in order."""
+    case = make_case(rng, "clean", 0, wrap)
+    case["profile"] = "ssnwrap"
+    k = rng.randrange(2, 8)
+    case["ssn"] = 65536 - k
+    w = W.World(dict(case, ops=[]))
+    w.oplog = []
+    w.apply(["start", "A"])
+    w.apply(["start", "B"])
+    w.heal(400)
+    n = rng.choice("AB")
+    other = "B" if n == "A" else "A"
+    params = dict(label="o", ordered=True)
+    if rng.random() < 0.3:
+        params["maxRetransmits"] = rng.choice([3, 5])
+    w.apply(["create", n, params])
+    w.heal(600)
+    for _round in range(rng.choice([1, 2])):
+        before = len(w.net[other])
+        for _ in range(8):
+            w.salt += 1
+            w.apply(["send", n, 0, rng.choice("sb"), rng.choice([1, 10, 100]), w.salt])
+            while w.ep[n].tasks:
+                w.apply(["task", n])
+        q = len(w.net[other]) - before
+        if q > 0:
+            # the DCEP OPEN consumed the first number: user message j carries ssn + 1 + j
+            j = (k - 2) if (_round == 0 and rng.random() < 0.6) else rng.randrange(q)
+            w.apply(["drop", other, before + min(j, q - 1)])
+        # the rest arrives, partly out of order
+        for _ in range(12):
+            if w.net[other]:
+                w.apply(["deliver", other, rng.randrange(len(w.net[other])) if rng.random() < 0.4 else 0])
+            if w.net[n] and rng.random() < 0.7:
+                w.apply(["deliver", n, 0])
+        w.heal(800)
+    return dict(case, ops=list(w.oplog))
+
+
 def _gen(args):
     seed, profile_name, steps, wrap = args
+    if profile_name == "ssnwrap":
+        return make_ssnwrap_case(random.Random(seed), wrap)
+    if profile_name == "early":
+        return make_early_case(random.Random(seed), wrap)
     if profile_name == "strike":
         return make_strike_case(random.Random(seed), wrap)
     if profile_name == "reuse":
@@ -259,8 +395,9 @@ class Run:
         sb = pb[5] if len(pb) > 5 else "-"
         self.line = f"sctp pair {pa[3]} {pa[4]} {sa} {pb[3]} {pb[4]} {sb}"
         self.expected = ea + "&" + eb
-        if any(op[0] == "react2" for op in case["ops"]):
-            self.line = None        # handlers that close / create from inside an event are outside the automaton
+        if any(op[0] == "react2" for op in case["ops"]) or case.get("ssn"):
+            self.line = None        # handlers that close / create from inside an event, and shifted stream sequence number
+                                    # origins, are outside the automaton
         self.crashes = {n: list(w.ep[n].crashes) for n in "AB"}
         self.reentrancy = sum(w.ep[n].reentrancy for n in "AB")
         # per channel summaries
@@ -385,6 +522,8 @@ class WorldComponent(Component):
                 return json.load(f)
         return []
 
+    ssn_share = 0          # every k-th generated case runs with stream sequence numbers starting just below 2^16 (oracle-only)
+
     def cases(self, rng, tier):
         n, steps = self.quick if tier == "quick" else self.thorough
         weighted = [m for m in self.mix for _ in range(m[2])]
@@ -392,7 +531,12 @@ class WorldComponent(Component):
         for i in range(n):
             prof, wrap, _ = weighted[i % len(weighted)]
             args.append((rng.getrandbits(48), prof, steps if i % 3 else max(60, steps // 3), wrap))
-        return pool().map(_gen, args)
+        out = pool().map(_gen, args)
+        if self.ssn_share:
+            for i, c in enumerate(out):
+                if i % self.ssn_share == self.ssn_share - 1 and not any(op[0] == "inject" for op in c["ops"]):
+                    c["ssn"] = 65536 - rng.randrange(1, 7)
+        return out
 
     def impl_many(self, cases):
         results = pool().map(_run, cases, chunksize=1)
@@ -481,7 +625,11 @@ def _pairs(run):
                 if i is None or i in paired:
                     continue
                 paired.add(i)
-                yield src, i, dst, (lst[k] if k < len(lst) else None)
+                j = lst[k] if k < len(lst) else None
+                yield src, i, dst, j
+                if j is not None:
+                    # the same pair seen from the accepting side: what the acceptor sends must reach the opener's end
+                    yield dst, j, src, i
         for i, ch in enumerate(run.channels[src]):
             cid = ch["id"]
             if cid is None or not ch["negotiated"]:
